@@ -56,31 +56,35 @@ Record fsobs := FsObs {
   ob_ct : bytes;                 (* Content-Type *)
   ob_vary : bytes;               (* Vary *)
   ob_body : bodyrep;             (* body bytes on the wire *)
-  ob_decoded : option bodyrep    (* gunzip of the body when Content-Encoding is gzip and the body is not empty *)
+  ob_decoded : option bodyrep    (* the body decoded with the real gzip / brotli / zstd decoder when Content-Encoding names
+                                    one of them and the body is not empty *)
 }.
 
 Inductive c24case :=
 | CRange (r : bytes) (n : Z) (impl : option (Z * Z))
-| CFs (osfs : bool) (size mtime : Z) (ranges compress : bool) (range ims ae : bytes) (get head : fsobs).
+(* OS filesystem, Compress on, "Accept-Encoding: gzip", no Range; before the request a file <name>.fasthttp.gz holding
+   the gzip of the test content of size+1 bytes (NOT of the file) exists with modification time mtime+delta *)
+| CSibling (size mtime now delta : Z) (ims : bytes) (get head : fsobs)
+| CFs (osfs : bool) (size mtime now : Z) (ranges compress brotli zstd : bool) (range ims ae : bytes) (get head : fsobs).
 
 (* ---------------- correspondence ---------------- *)
 Definition br_opt (r : brres) : option (Z * Z) := match r with BROk s e => Some (s, e) | BRErr => None end.
 Definition ozz_eqb : option (Z * Z) -> option (Z * Z) -> bool := option_eqb (pair_eqb Z.eqb Z.eqb).
 
-Definition is_gzip (o : fsobs) : bool := beq (ob_ce o) strGzip.
+Definition is_coded (o : fsobs) : bool := negb (beq (ob_ce o) []).
 
 Definition obs_matches (m : fsout) (o : fsobs) : bool :=
   (fo_status m =? ob_status o)
   && beq (fo_contentRange m) (ob_cr o)
   && ((fo_contentLength m <? 0) || (fo_contentLength m =? ob_cl o))
-  && Bool.eqb (fo_gzip m) (is_gzip o)
+  && beq (fo_coding m) (ob_ce o)
   && beq (fo_lastModified m) (ob_lm o)
   && Bool.eqb (fo_acceptRanges m) (beq (ob_ar o) strBytes)
   && match fo_body m with
      | BNone => (body_len (ob_body o) =? 0)
      | BError => negb (body_len (ob_body o) =? 0)
      | BSlice s n =>
-         if fo_gzip m then
+         if negb (beq (fo_coding m) []) then
            (* the served variant is the compressed one: its decoding is the whole file *)
            (body_len (ob_body o) =? n)
            && match ob_decoded o with Some d => true | None => false end
@@ -90,12 +94,24 @@ Definition obs_matches (m : fsout) (o : fsobs) : bool :=
 Definition corr_ok (c : c24case) : bool :=
   match c with
   | CRange r n impl => ozz_eqb (br_opt (ParseByteRange r n)) impl
-  | CFs _ size mtime ranges compress range ims ae g h =>
+  | CSibling size mtime now delta ims g h =>
+      (* the model: the sibling is kept unless the original is at least a second newer *)
+      let lmt := compressedVariantMtime now mtime (Some (mtime + delta)) in
+      let kept := negb (siblingStale mtime (mtime + delta)) in
+      let one (o : fsobs) (isHead : bool) :=
+        if negb (IfModifiedSince ims lmt) then (ob_status o =? 304)
+        else (ob_status o =? 200) && beq (ob_lm o) (spec_format_http_date lmt) && beq (ob_ce o) strGzip
+             && (isHead || match ob_decoded o with
+                           | Some d => body_is d (slice 0 (if kept then size + 1 else size))
+                           | None => false
+                           end) in
+      one g false && one h true
+  | CFs _ size mtime now ranges compress brotli zstd range ims ae g h =>
       (* the codec variable: did openFSFile produce a compressed variant, and how long is it *)
-      let compressible := is_gzip g || is_gzip h in
-      let zlen := if is_gzip g then ob_cl g else ob_cl h in
-      obs_matches (fs_handle size mtime ranges compress false range ims ae compressible zlen) g
-      && obs_matches (fs_handle size mtime ranges compress true range ims ae compressible zlen) h
+      let compressible := is_coded g || is_coded h in
+      let zlen := if is_coded g then ob_cl g else ob_cl h in
+      obs_matches (fs_handle size mtime now ranges compress brotli zstd false range ims ae compressible zlen) g
+      && obs_matches (fs_handle size mtime now ranges compress brotli zstd true range ims ae compressible zlen) h
   end.
 
 (* ---------------- the property ---------------- *)
@@ -104,20 +120,28 @@ Definition range_inv (n : Z) (impl : option (Z * Z)) : bool :=
 
 Definition full (size : Z) : bytes := slice 0 size.
 
-(* the GET response against the expected outcome *)
-Definition get_ok (size : Z) (compress : bool) (ae : bytes) (e : expect) (o : fsobs) : bool :=
+(* a content coding may only be used when compression is on, that coding is enabled and the client offered it *)
+Definition coding_allowed (compress brotli zstd : bool) (ae ce : bytes) : bool :=
+  compress
+  && ((beq ce strGzip) || (beq ce strBr && brotli) || (beq ce strZstd && zstd))
+  && match index_sub ae ce with Some _ => true | None => false end.
+
+(* the GET response against the expected outcome.  The validator is the ORIGINAL file's modification time (to the
+   second) whatever representation is served: Last-Modified of every 200 / 206 must be that date. *)
+Definition get_ok (size mtime : Z) (compress brotli zstd : bool) (ae : bytes) (e : expect) (o : fsobs) : bool :=
+  let lm_ok := beq (ob_lm o) (spec_format_http_date mtime) in
   let ok200 := fun _ : unit =>
-    (ob_status o =? 200) && beq (ob_cr o) []
+    (ob_status o =? 200) && beq (ob_cr o) [] && lm_ok
     && (if beq (ob_ce o) [] then body_is (ob_body o) (full size) && (ob_cl o =? size)
-        else (* content-coded: only when compression is on, the client offered gzip, and it decodes to the file *)
-          is_gzip o && compress && match index_sub ae strGzip with Some _ => true | None => false end
+        else (* content-coded: only an allowed coding, and it decodes to the file *)
+          coding_allowed compress brotli zstd ae (ob_ce o)
           && (ob_cl o =? body_len (ob_body o))
           && match ob_decoded o with Some d => body_is d (full size) | None => false end) in
   match e with
   | E304 => (ob_status o =? 304) && (body_len (ob_body o) =? 0)
   | E206 s e' =>
       (ob_status o =? 206) && beq (ob_cr o) (content_range s e' size) && (ob_cl o =? e' - s + 1)
-      && beq (ob_ce o) [] && body_is (ob_body o) (slice s (e' - s + 1))
+      && beq (ob_ce o) [] && body_is (ob_body o) (slice s (e' - s + 1)) && lm_ok
   | E416 => (ob_status o =? 416)
   | E416or200 => (ob_status o =? 416) || ok200 tt
   | E200 => ok200 tt
@@ -134,9 +158,12 @@ Definition prop_ok (c : c24case) : bool :=
   | CRange r n impl =>
       range_inv n impl
       && ozz_eqb impl (match spec_range r n with RSat s e => Some (s, e) | _ => None end)
-  | CFs _ size mtime ranges compress range ims ae g h =>
+  | CSibling size mtime _ _ ims g h =>
+      (* whatever lies next to the file: the response is about THE FILE *)
+      head_ok g h && get_ok size mtime true false false strGzip (spec_fs size mtime [] ims) g
+  | CFs _ size mtime _ ranges compress brotli zstd range ims ae g h =>
       head_ok g h
-      && (if ranges then get_ok size compress ae (spec_fs size mtime range ims) g
+      && (if ranges then get_ok size mtime compress brotli zstd ae (spec_fs size mtime range ims) g
           else (* byte ranges disabled: the Range header is ignored *)
-            get_ok size compress ae (spec_fs size mtime [] ims) g)
+            get_ok size mtime compress brotli zstd ae (spec_fs size mtime [] ims) g)
   end.
